@@ -491,3 +491,448 @@ class node_cancel(Contract):
             z3.Select(w.done, a), z3.Select(w.outcome, a) == z3.If(z3.Select(w0.done, a), z3.Select(w0.outcome, a), z3.IntVal(CANCELLED)),
             z3.Implies(z3.Not(NOTASK(a)), z3.Select(w.task_cancelled, a))))),
             'list_unchanged': self.d['pending_list'] is d['pl']}
+
+
+# ============================================================================= table level: _on_nack, _remove_pending,
+# _wait_for_data, express_raw_interest (pygtrie-backed NameTrie = ASSUMED map from name to node)
+from ndn import utils as _utils                                       # noqa: E402
+from ndn.encoding.name import Name, Component                         # noqa: E402
+from contracts.assumed_aio import Fut, Face, install_clock            # noqa: E402
+import logging                                                        # noqa: E402
+
+
+class PName:
+    """a name as seen by the table code: emptiness and the type of its last component are symbolic"""
+
+    def __init__(self, run, label, stripped_of=None):
+        self.run, self.label, self.stripped_of = run, label, stripped_of
+        if stripped_of is None:
+            self.empty = run.input_bool(f'{label}_empty')
+            self.last_type = run.input_int(f'{label}_last_type')
+
+    def truth(self, it):
+        if self.stripped_of is not None:
+            raise Unsupported('truth of a stripped name')
+        return Not(self.empty)
+
+    def getitem(self, it, idx, node):
+        if idx != -1 or self.stripped_of is not None:
+            raise Unsupported('only name[-1] is modelled')
+        if it.run.branch(self.empty, 'name.empty'):
+            it.raise_(IndexError, 'list index out of range', node=node)
+        return PLast(self)
+
+    def getslice(self, it, lo, hi, node):
+        if lo is None and hi == -1 and self.stripped_of is None:
+            return PName(self.run, self.label + '[:-1]', stripped_of=self)
+        raise Unsupported('only name[:-1] is modelled')
+
+
+class PLast:
+    def __init__(self, name):
+        self.name = name
+
+
+class PDigest(NackDigest):
+    def __init__(self, of):
+        self.of = of
+
+
+def _use_pname(kind):
+    return lambda c, it, args, kwargs: isinstance(args[0], kind)
+
+
+@contract
+class normalize_pname(Contract):
+    fn = Name.normalize
+    assumed = True
+    use_contract_at = _use_pname(PName)
+
+    def result(c, cx, name):
+        return name
+
+
+@contract
+class get_type_plast(Contract):
+    fn = Component.get_type
+    assumed = True
+    use_contract_at = _use_pname(PLast)
+
+    def result(c, cx, component):
+        return component.name.last_type
+
+
+@contract
+class get_value_plast(Contract):
+    fn = Component.get_value
+    assumed = True
+    use_contract_at = _use_pname(PLast)
+
+    def result(c, cx, component):
+        return PDigest(component.name)
+
+
+class NodeModel:
+    """an InterestTreeNode seen through the contracts of its methods (verified above)"""
+
+    def __init__(self, run, label):
+        self.run, self.label = run, label
+        self.calls = []
+
+    def truth(self, it):
+        return True
+
+    def getattr_(self, it, name, node):
+        if name in ('nack_interest', 'timeout', 'append_interest', 'satisfy'):
+            def f(it_, *a, **kw):
+                r = None
+                if name != 'append_interest':
+                    r = it_.run.fresh_bool(f'{self.label}.{name}_leaves_nothing')
+                self.calls.append((name, a, kw, r, len(it_.run.ghost.get('pit.events', []))))
+                it_.run.ghost.setdefault('pit.events', []).append((name, self))
+                return r
+            return _M(f)
+        raise Unsupported(f'InterestTreeNode.{name}')
+
+
+class PitModel:
+    """NameTrie as a map name -> node (ASSUMED pygtrie contract: __getitem__ / KeyError, __delitem__, setdefault)"""
+
+    def __init__(self, run, present):
+        self.run = run
+        self.present = present        # node stored under the queried name, or None
+        self.queried = []
+        self.deleted = []
+        self.created = None
+
+    def _same_key(self, k):
+        return all(q is k for q in self.queried)
+
+    def getitem(self, it, key, node):
+        self.queried.append(key)
+        if self.present is None or key in self.deleted:
+            it.raise_(KeyError, 'no such name', node=node)
+        return self.present
+
+    def setitem(self, it, key, val, node):
+        self.queried.append(key)
+        self.present = val
+        self.created = val
+        it.run.ghost.setdefault('pit.events', []).append(('set', key))
+
+    def delitem(self, it, key, node):
+        self.queried.append(key)
+        if self.present is None or key in self.deleted:
+            it.raise_(KeyError, 'no such name', node=node)
+        self.deleted.append(key)
+        it.run.ghost.setdefault('pit.events', []).append(('del', key))
+
+    def getattr_(self, it, name, node):
+        if name == 'setdefault':
+            def setdefault(it_, key, default):
+                self.queried.append(key)
+                if self.present is None:
+                    self.present = default
+                    self.created = default
+                return self.present
+            return _M(setdefault)
+        raise Unsupported(f'NameTrie.{name}')
+
+
+def _is_empty_bytes(v):
+    from pyvc.run import View
+    if isinstance(v, (bytes, bytearray)):
+        return len(v) == 0
+    return isinstance(v, View) and Eq(zint(v.length), 0)
+
+
+def mk_app2(cx, pit, face=None):
+    return SymObj(appv2.NDNApp, dict(logger=logging.getLogger('ndn.appv2'), face=face or Face(cx.run, True), _pit=pit, _fib=None,
+                                     registerer=None, _autoreg_routes=[]))
+
+
+@contract
+class on_nack(Contract):
+    fn = appv2.NDNApp._on_nack
+    props = ('C03', 'C10')
+    doc = ('_on_nack(name, reason): the pending node is looked up under the name without its implicit-digest component (and only '
+           'that component is dropped), nack_interest(reason, digest) is called on it exactly once with the digest of the Nack name '
+           '(b\'\' without one), and the node is removed from the table iff nack_interest reports that nothing remains; a Nack for an '
+           'unknown name changes nothing; nothing is raised')
+    raises = {}
+
+    def setup(self, cx):
+        run = cx.run
+        pk = run.choose([('no pending node', True), ('pending node', True)], 'pit')
+        node = NodeModel(run, 'node') if pk == 'pending node' else None
+        pit = PitModel(run, node)
+        run.ghost['on_nack'] = dict(pit=pit, node=node)
+        return dict(self=mk_app2(cx, pit), name=PName(run, 'name'), nack_reason=run.input_int('nack_reason'))
+
+    def post(c, cx, result, self, name, nack_reason):
+        g = cx.run.ghost['on_nack']
+        pit, node = g['pit'], g['node']
+        digest = And(Not(name.empty), name.last_type == Component.TYPE_IMPLICIT_SHA256)
+        out = {'table_queried_under_one_name': len(pit.queried) >= 1 and pit._same_key(pit.queried[0])}
+        if not out['table_queried_under_one_name']:
+            return out
+        key = pit.queried[0]
+        out['node_name_is_the_nack_name_without_digest_component'] = And(
+            Implies(digest, isinstance(key, PName) and key.stripped_of is name), Implies(Not(digest), key is name))
+        if node is None:
+            out['unknown_name_changes_nothing'] = pit.deleted == []
+            return out
+        out['nack_interest_called_once'] = [x[0] for x in node.calls] == ['nack_interest']
+        if out['nack_interest_called_once']:
+            _, a, kw, r, _ = node.calls[0]
+            dg = a[1] if len(a) > 1 else kw.get('implicit_sha256', b'')
+            out['reason_passed_on'] = a[0] is nack_reason
+            out['digest_of_the_nack_name_passed_on'] = And(Implies(digest, isinstance(dg, PDigest) and dg.of is name),
+                                                           Implies(Not(digest), _is_empty_bytes(dg)))
+            out['node_removed_iff_nothing_remains'] = Iff(r, len(pit.deleted) == 1) if not isinstance(r, bool) else (r == (len(pit.deleted) == 1))
+        return out
+
+
+@contract
+class remove_pending(Contract):
+    fn = appv2.NDNApp._remove_pending
+    props = ('C03',)
+    doc = ('_remove_pending(future, node_name, node): the future\'s entries leave the node (node.timeout); the table entry under '
+           'node_name is deleted iff the node is empty afterwards AND the table still holds this very node under that name (a node '
+           'that was replaced meanwhile is left alone); a missing table entry is not an error; nothing is raised')
+    raises = {}
+
+    def setup(self, cx):
+        run = cx.run
+        node = NodeModel(run, 'node')
+        tk = run.choose([('table holds this node', True), ('table holds another node', True), ('table holds nothing', True)], 'table')
+        present = node if tk == 'table holds this node' else (NodeModel(run, 'other') if tk == 'table holds another node' else None)
+        pit = PitModel(run, present)
+        run.ghost['rp'] = dict(pit=pit, node=node, tk=tk)
+        return dict(self=mk_app2(cx, pit), future=FutArg(), node_name=Opaque('token', 'node name'), node=node)
+
+    def post(c, cx, result, self, future, node_name, node):
+        g = cx.run.ghost['rp']
+        pit = g['pit']
+        out = {'future_entries_removed_from_the_node': [x[0] for x in node.calls] == ['timeout'] and node.calls[0][1] == (future,)}
+        if not out['future_entries_removed_from_the_node']:
+            return out
+        empty = node.calls[0][3]
+        should = And(empty, g['tk'] == 'table holds this node')
+        out['table_entry_deleted_iff_node_empty_and_still_registered'] = Iff(should, pit.deleted == [node_name])
+        out['nothing_else_deleted'] = all(k is node_name for k in pit.deleted) and len(pit.deleted) <= 1
+        return out
+
+
+def _wait_for_model(it, args, kwargs, node):
+    """ASSUMED asyncio.wait_for(future, timeout): the future's result, the exception set on it, TimeoutError after the timeout, or
+    CancelledError when the waiting task is cancelled"""
+    fut = args[0]
+    timeout = kwargs.get('timeout', args[1] if len(args) > 1 else None)
+
+    def thunk():
+        g = it.run.ghost.setdefault('wait_for', [])
+        tag = it.run.choose([('result', True), (TimeoutError, True), (asyncio.CancelledError, True), (types.InterestNack, True),
+                             (types.ValidationFailure, True)], 'wait_for')
+        g.append((fut, timeout, tag))
+        if tag == 'result':
+            return (Opaque('token', 'data name'), Opaque('token', 'content'), Opaque('token', 'context'))
+        raise PyExc(tag, ('from wait_for',), getattr(node, 'lineno', None), it.where())
+    return CoroVal(thunk, 'wait_for')
+
+
+def _install2():
+    from pyvc import models
+    models.REAL_FUNCTION_MODELS[asyncio.wait_for] = _wait_for_model
+    models.BUILTIN_MODELS[asyncio.wait_for] = _wait_for_model
+
+
+_install2()
+
+
+@contract
+class wait_for_data(Contract):
+    fn = appv2.NDNApp._wait_for_data
+    props = ('C03',)
+    doc = ('_wait_for_data: waits on the Interest\'s own future for the remaining lifetime (100 ms when the deadline already passed); '
+           'the future\'s result is returned unchanged; a timeout becomes InterestTimeout and a cancellation InterestCanceled, in both '
+           'cases after the Interest was removed from the pending table; InterestNack and ValidationFailure pass through and leave '
+           'the table alone (their entry was removed by the code that completed the future)')
+    raises = {types.InterestTimeout: lambda cx, **p: True, types.InterestCanceled: lambda cx, **p: True,
+              types.InterestNack: lambda cx, **p: True, types.ValidationFailure: lambda cx, **p: True}
+
+    def setup(self, cx):
+        run = cx.run
+        clock = install_clock(run)
+        node = NodeModel(run, 'node')
+        pit = PitModel(run, node)
+        fut = Fut(run, 'future')
+        run.ghost['wfd'] = dict(pit=pit, node=node, fut=fut, clock=clock)
+        return dict(self=mk_app2(cx, pit), future=fut, deadline=run.input_int('deadline'), node_name=Opaque('token', 'node name'),
+                    node=node)
+
+    def _common(c, cx, future, deadline):
+        g = cx.run.ghost['wfd']
+        w = cx.run.ghost.get('wait_for', [])
+        out = {'waits_once_on_its_own_future': len(w) == 1 and w[0][0] is future}
+        if len(w) == 1 and len(g['clock'].reads) >= 1:
+            now = g['clock'].reads[0]
+            lifetime = z3.If(zint(deadline) - zint(now) <= 0, 100, zint(deadline) - zint(now))
+            t = w[0][1]
+            from pyvc.values import Quot
+            if isinstance(t, Quot):
+                out['waits_for_the_remaining_lifetime'] = t.den == 1000.0 and Eq(zint(t.num), lifetime)
+            else:
+                out['waits_for_the_remaining_lifetime'] = isinstance(t, float) and t == 0.1 and zint(deadline) - zint(now) <= 0
+        return out, w
+
+    def post(c, cx, result, self, future, deadline, node_name, node):
+        out, w = c._common(cx, future, deadline)
+        out['result_of_the_future_returned'] = len(w) == 1 and w[0][2] == 'result' and isinstance(result, tuple) and len(result) == 3
+        out['table_untouched_on_success'] = node.calls == [] and cx.run.ghost['wfd']['pit'].deleted == []
+        return out
+
+    def xpost(c, cx, exc, self, future, deadline, node_name, node):
+        out, w = c._common(cx, future, deadline)
+        if len(w) != 1:
+            return out
+        tag = w[0][2]
+        removed = [x[0] for x in node.calls] == ['timeout'] and node.calls[0][1] == (future,)
+        if exc.cls is types.InterestTimeout:
+            out['timeout_reported_after_removal'] = tag is TimeoutError and removed
+        elif exc.cls is types.InterestCanceled:
+            out['cancellation_reported_after_removal'] = tag is asyncio.CancelledError and removed
+        else:
+            out['other_outcomes_pass_through_and_leave_the_table_alone'] = tag is exc.cls and node.calls == []
+        return out
+
+
+class EvFace(Face):
+    def getattr_(self, it, name, node):
+        if name == 'send':
+            def f(it_, data):
+                self.sent.append((data, it_.run.heap))
+                it_.run.ghost.setdefault('pit.events', []).append(('send', data))
+            return _M(f)
+        return super().getattr_(it, name, node)
+
+
+class LoopObj:
+    def __init__(self, run):
+        self.run = run
+        self.created = []
+
+    def getattr_(self, it, name, node):
+        if name == 'create_future':
+            def f(it_):
+                fu = Fut(it_.run, f'future{len(self.created)}', state=0)
+                self.created.append(fu)
+                return fu
+            return _M(f)
+        raise Unsupported(f'loop.{name}')
+
+
+def _install3():
+    from pyvc import models
+
+    def get_loop(it, args, kwargs, node):
+        lp = it.run.ghost.get('aio.loop')
+        if lp is None:
+            lp = it.run.ghost['aio.loop'] = LoopObj(it.run)
+        return lp
+    models.REAL_FUNCTION_MODELS[asyncio.get_running_loop] = get_loop
+    models.BUILTIN_MODELS[asyncio.get_running_loop] = get_loop
+
+
+_install3()
+
+
+@contract
+class express_raw_interest(Contract):
+    fn = appv2.NDNApp.express_raw_interest
+    props = ('C03',)
+    doc = ('express_raw_interest: with no_response the Interest is only sent; without a validator it is refused (ValueError) before '
+           'anything is sent or registered; otherwise exactly one new pending entry (fresh future, deadline = now + lifetime or the '
+           '4 s default, the Interest\'s selectors, validator, implicit digest) is registered under the name without its digest '
+           'component - in the existing node of that name or a new one - BEFORE the Interest is handed to the face exactly once, '
+           'and the coroutine returned waits on that same future')
+    raises = {ValueError: lambda cx, **p: p['validator'] is None and p['no_response'] is not True}
+    exact_raises = True
+
+    def setup(self, cx):
+        run = cx.run
+        install_clock(run)
+        nk = run.choose([('node exists', True), ('no node yet', True)], 'pit')
+        node = NodeModel(run, 'node') if nk == 'node exists' else None
+        pit = PitModel(run, node)
+        face = EvFace(run, True)
+        vk = run.choose([('validator', True), ('validator=None', True)], 'validator')
+        validator = Opaque('validator', 'validator') if vk == 'validator' else None
+        nr = run.choose([(False, True), (True, True)], 'no_response')
+        lk = run.choose([('lifetime', True), ('lifetime=None', True)], 'lifetime')
+        lifetime = run.input_int('lifetime') if lk == 'lifetime' else None
+        from pyvc.symseq import AbsObj
+        param = AbsObj('interest_param', dict(lifetime=lifetime, can_be_prefix=run.input_bool('can_be_prefix'),
+                                              must_be_fresh=run.input_bool('must_be_fresh')))
+        name = PName(run, 'final_name')
+        run.assume(Not(name.empty))             # an Interest name has at least one component (make_interest guarantees it)
+        run.ghost['eri'] = dict(pit=pit, node=node, face=face, lifetime=lifetime)
+        return dict(self=mk_app2(cx, pit, face), final_name=name, interest_param=param, raw_interest=Opaque('token', 'raw interest'),
+                    validator=validator, no_response=nr)
+
+    def xpost(c, cx, exc, self, final_name, interest_param, raw_interest, validator, no_response):
+        g = cx.run.ghost['eri']
+        return {'refused_before_any_effect': g['face'].sent == [] and g['pit'].queried == [] and
+                (g['node'] is None or g['node'].calls == [])}
+
+    def post(c, cx, result, self, final_name, interest_param, raw_interest, validator, no_response):
+        run, it = cx.run, cx.it
+        g = run.ghost['eri']
+        pit, node, face = g['pit'], g['node'], g['face']
+        out = {'interest_sent_exactly_once': len(face.sent) == 1 and face.sent[0][0] is raw_interest}
+        if no_response is True:
+            out['fire_and_forget_registers_nothing'] = result is None and pit.queried == [] and (node is None or node.calls == [])
+            return out
+        lp = run.ghost.get('aio.loop')
+        out['one_fresh_future'] = lp is not None and len(lp.created) == 1
+        if not out['one_fresh_future']:
+            return out
+        fut = lp.created[0]
+        digest = final_name.last_type == Component.TYPE_IMPLICIT_SHA256
+        key = pit.queried[0] if pit.queried else None
+        out['registered_under_the_name_without_digest_component'] = len(pit.queried) == 1 and And(
+            Implies(digest, isinstance(key, PName) and key.stripped_of is final_name), Implies(Not(digest), key is final_name))
+        now = run.ghost['clock'].reads[0] if run.ghost['clock'].reads else None
+        want_deadline = None if now is None else simp(zint(now) + (zint(g['lifetime']) if g['lifetime'] is not None else 4000))
+        events = run.ghost.get('pit.events', [])
+        if node is not None:
+            ok = [x[0] for x in node.calls] == ['append_interest']
+            out['one_entry_appended_to_the_existing_node'] = ok and pit.created is None
+            if ok:
+                a = node.calls[0][1]
+                out['entry_fields'] = And(len(a) == 5 and a[0] is fut and want_deadline is not None and a[2] is interest_param and
+                                          a[3] is validator, Eq(zint(a[1]), want_deadline) if want_deadline is not None else False)
+                dg = a[4] if len(a) == 5 else None
+                out['entry_digest'] = And(Implies(digest, isinstance(dg, PDigest) and dg.of is final_name), Implies(Not(digest), _is_empty_bytes(dg)))
+                out['registered_before_sent'] = [e[0] for e in events] == ['append_interest', 'send']
+        else:
+            nd = pit.created
+            ok = isinstance(nd, SymObj) and nd.cls is appv2.InterestTreeNode and isinstance(nd.d.get('pending_list'), list) and \
+                len(nd.d['pending_list']) == 1
+            out['new_node_with_exactly_this_entry'] = ok
+            if ok:
+                e = nd.d['pending_list'][0]
+                okf = isinstance(e, SymObj) and e.d.get('future') is fut and want_deadline is not None and e.d.get('validator') is validator
+                out['entry_fields'] = And(okf, Eq(zint(e.d.get('deadline')), want_deadline) if okf else False,
+                                          Iff(e.d.get('can_be_prefix'), interest_param.attrs['can_be_prefix']),
+                                          Iff(e.d.get('must_be_fresh'), interest_param.attrs['must_be_fresh'])) if okf else False
+                dg = e.d.get('implicit_sha256')
+                out['entry_digest'] = And(Implies(digest, isinstance(dg, PDigest) and dg.of is final_name), Implies(Not(digest), _is_empty_bytes(dg)))
+        # the coroutine handed back waits on this very future
+        try:
+            it.await_value(result)
+        except PyExc:
+            pass
+        w = run.ghost.get('wait_for', [])
+        out['returned_coroutine_waits_on_that_future'] = len(w) == 1 and w[0][0] is fut
+        return out
